@@ -46,6 +46,8 @@ class SimThread:
         self.blocked_on: Any = None
         self.thread: Optional[threading.Thread] = None
         self.priority = 0.0
+        self.in_library = 0  # > 0 while the thread is inside a library call made by the harness
+        self.native_id = 0
 
 
 class Sim:
@@ -203,6 +205,7 @@ class Sim:
 
     # ------------------------------------------------------------------
     def _body(self, t: SimThread) -> None:
+        t.native_id = threading.get_native_id()
         t.sem.acquire()
         try:
             if self.aborted is None:
@@ -275,17 +278,23 @@ class Sim:
             self.current = first
             first.sem.release()
             last = -1
+            asleep = 0
             while not self.done.wait(0.25):
-                # No step for a quarter of a second: the baton holder is blocked
-                # in a real lock held by a parked thread (a lock somebody added
-                # to the library).  Mark it blocked and pass the baton on; when
-                # it wakes up it parks itself at its next line event.
-                if self.steps != last:
-                    last = self.steps
-                    continue
+                # No step for two quarter-seconds while the baton holder is inside
+                # a library call AND asleep in the kernel (not merely starved of
+                # CPU, not doing harness I/O): it is blocked in a real lock held
+                # by a parked thread (a lock somebody added to the library).  Mark
+                # it blocked and pass the baton on; when it wakes up it parks
+                # itself at its next line event.
                 cur = self.current
-                if cur is None or cur.finished:
+                if self.steps != last or cur is None or cur.finished or not cur.in_library or _thread_state(cur.native_id) != "S":
+                    last = self.steps
+                    asleep = 0
                     continue
+                asleep += 1
+                if asleep < 2:
+                    continue
+                asleep = 0
                 cur.blocked_on = "real-lock"
                 self._have_blocked = True
                 self.real_blocks += 1
@@ -303,6 +312,29 @@ class Sim:
                     t.thread.join()
         finally:
             ACTIVE = None
+
+
+def _thread_state(native_id: int) -> str:
+    """Kernel scheduling state of one of our threads: 'R' running/runnable, 'S' sleeping (futex, pipe...)."""
+    try:
+        with open(f"/proc/self/task/{native_id}/stat") as fd:
+            return fd.read().rsplit(")", 1)[1].split()[0]
+    except (OSError, IndexError):
+        return "?"
+
+
+class in_library:
+    """Context manager the harness puts around every call into the library."""
+
+    def __enter__(self) -> None:
+        sim = ACTIVE
+        self.t = sim.current if sim is not None and threading.current_thread().name.startswith("sim-") else None
+        if self.t is not None:
+            self.t.in_library += 1
+
+    def __exit__(self, *a: Any) -> None:
+        if self.t is not None:
+            self.t.in_library -= 1
 
 
 def draw_strategy(rng: random.Random, names: List[str]) -> Dict[str, Any]:
